@@ -366,8 +366,13 @@ def known_class(ver, req_tokens, d):
         return None
     if d.get("rc") != 0:
         return None
-    if check_output(ver, req_tokens, d) is None:
+    why0 = check_output(ver, req_tokens, d)
+    if why0 is None:
         return None
+    if why0.startswith("output has a line of") or why0 == "re-parse reported error(s) %d" % CODES["CIF_OVERLENGTH_LINE"]:
+        # write_numb prints an unquoted number on one line however long its text is
+        if any(k == "M" and q == 0 and len(t) > LINE for k, q, t in request_strings(req_tokens)[1]):
+            return "unquoted-number-longer-than-a-line"
     if d.get("prc") == 0 and d.get("errs") == "-" and equivalent(d.get("orig", ["-"]), d.get("back", ["-"]), tolerate=True) is None:
         # everything else of the oracle holds?
         d2 = dict(d)
